@@ -562,7 +562,7 @@ impl Check for C05 {
         )
     }
     fn rule(&self) -> String {
-        "skeletons: EVERY sequence of <= L operations (L=5 quick, 6 thorough) from {let a, let b, use a, use b, open if-block, open match arm binding a, open closure with parameter a, open while body, close} turned into a program (each binder holds a distinct value, each use prints); long-skeletons: random sequences of 6..15 operations; programs: type-directed random programs drawn with a 3-name pool so nearly every binder shadows. Oracle: (1) a well-scoped program is not rejected with a scoping diagnostic, a use with no binder in scope is rejected; (2) in the compiler's HIR every use of a generated variable resolves to NameRef::Local of exactly the binder the generator intended (binders located by their text range), distinct binders have distinct ids; (3) the compiled program prints the value of the intended binder at every use (reference interpreter vs Go-subset interpreter). Non-trivial = some use resolves to a binder that is not the textually most recent binder of that name (a leak would change the answer), or (programs) the program shadows a name; distinct by hash of the text.".into()
+        "skeletons: EVERY sequence of <= L operations (L=5 quick, 6 thorough) from {let a, let b, use a, use b, open if-block, open match arm binding a, open closure with parameter a, open while body, close} turned into a program (each binder holds a distinct value, each use prints); long-skeletons: random sequences of 6..15 operations; wide-skeletons: random sequences of 20..60 operations, mostly lets and uses (many bindings visible at once); programs: type-directed random programs drawn with a 3-name pool so nearly every binder shadows. Oracle: (1) a well-scoped program is not rejected with a scoping diagnostic, a use with no binder in scope is rejected; (2) in the compiler's HIR every use of a generated variable resolves to NameRef::Local of exactly the binder the generator intended (binders located by their text range), distinct binders have distinct ids; (3) the compiled program prints the value of the intended binder at every use (reference interpreter vs Go-subset interpreter). Non-trivial = some use resolves to a binder that is not the textually most recent binder of that name (a leak would change the answer), or (programs) the program shadows a name (top-level functions may be spelled like the locals a/b/c, so that a local closure shadows a function in call position); distinct by hash of the text.".into()
     }
     fn assumptions(&self) -> Vec<String> {
         vec![
